@@ -74,6 +74,39 @@ SOURCES = [
        c_sig='static void cb_release_hazard_era(struct tcb* self, struct hazard_era** he_p, struct hazard_era** hint_p)',
        subst=[(r'\bhint\b', '(*hint_p)', 'hint_ref'), (r'\bhe\b', '(*he_p)', 'he_ref')],
        must_fire={'method:release_guard': 1, 'method:set_link': 1, 'member:last_hazard_era': 2}),
+  # ---- dynamic strategy (impl 367-422) ----
+  dict(TCB, id='dynamic_need_more_hes', file=IMPL, sig=r'hazard_era\* need_more_hes\(\)', which=1,
+       c_sig='static struct hazard_era* dynamic_need_more_hes(struct tcb* self)',
+       self_calls={'allocate_new_hazard_eras_block': 'dynamic_allocate_new_hazard_eras_block'}, must_fire={'self_call:allocate_new_hazard_eras_block': 1}),
+  dict(TCB, id='dynamic_number_of_hes', file=IMPL, sig=r'size_t number_of_hes\(\) const', which=1, c_sig='static size_t dynamic_number_of_hes(struct tcb* self)',
+       must_fire={'member:total_number_of_hes': 1}),
+  dict(TCB, id='dynamic_initialize_next_block', file=IMPL, sig=r'hazard_era\* initialize_next_block\(\)\s*(?=\{)', which=1,
+       c_sig='static struct hazard_era* dynamic_initialize_next_block(struct tcb* self)',
+       subst=[(r'base::initialize_block\(\*(\w+)\)', r'blk_initialize_block(\1)', 'initialize_block')], must_fire={'A_LOAD': 1, 'subst:initialize_block': 1}),
+  dict(TCB, id='dynamic_allocate_new_hazard_eras_block', file=IMPL, sig=r'hazard_era\* allocate_new_hazard_eras_block\(\)',
+       c_sig='static struct hazard_era* dynamic_allocate_new_hazard_eras_block(struct tcb* self)',
+       pre_subst=[(r'hazard_eras_block::operator new\(buffer_size\)', 'XV_BLOCK_NEW(buffer_size)', 'op_new'),
+                  (r'::new \(buffer\) hazard_eras_block\(hes\)', 'XV_BLOCK_CTOR(buffer, hes)', 'placement_new'),
+                  (r'this->initialize_block\(\*block\)', 'blk_initialize_block(block)', 'initialize_block'),
+                  (r'sizeof\(hazard_eras_block\)', 'sizeof(xv_block_header_t)', 'sizeof_block'), (r'sizeof\(hazard_era\)', 'sizeof(struct hazard_era)', 'sizeof_slot')],
+       subst=[(r'std::max', 'XV_MAX', 'max'), (r'Strategy::K', 'XV_K', 'K'), (r'Strategy::number_of_active_hes', 'g_number_of_active_hes', 'active_hes')],
+       must_fire={'subst:op_new': 1, 'subst:placement_new': 1, 'subst:initialize_block': 1, 'subst:max': 1, 'subst:K': 1, 'A_FADD': 1, 'A_LOAD': 1, 'A_STORE': 1,
+                  'member:total_number_of_hes': 2}),
+  dict(id='blk_ctor', file=IMPL, sig=r'explicit hazard_eras_block\(size_t size\)', ctor=True, c_sig='static void blk_ctor(struct he_block* self, size_t size)',
+       pre_subst=[(r'new \(it\) hazard_era;', 'XV_CONSTRUCT_SLOT(it);', 'construct_slot')], self_calls={'begin': 'blk_begin', 'end': 'blk_end'},
+       must_fire={'subst:construct_slot': 1, 'ctor_init': 1, 'self_call:begin': 1, 'self_call:end': 1}),
+  dict(id='blk_begin', file=IMPL, sig=r'hazard_era\* begin\(\)', which=2, c_sig='static struct hazard_era* blk_begin(struct he_block* self)',
+       types={'hazard_era*': 'struct hazard_era*'}, must_fire={'cast': 1}),
+  dict(id='blk_end', file=IMPL, sig=r'hazard_era\* end\(\)', which=2, c_sig='static struct hazard_era* blk_end(struct he_block* self)',
+       members=['size'], self_calls={'begin': 'blk_begin'}, must_fire={'member:size': 1, 'self_call:begin': 1}),
+  dict(id='blk_initialize_next_block', file=IMPL, sig=r'hazard_era\* initialize_next_block\(\)\s*(?=\{)', which=0,
+       c_sig='static struct hazard_era* blk_initialize_next_block(struct he_block* self)', members=['next'],
+       subst=[(r'base::initialize_block\(\*(\w+)\)', r'blk_initialize_block(\1)', 'initialize_block')], must_fire={'subst:initialize_block': 1, 'member:next': 2}),
+  dict(id='blk_initialize_block', file=IMPL, sig=r'static hazard_era\* initialize_block\(T& block\)',
+       c_sig='static struct hazard_era* blk_initialize_block(struct he_block* block_p)',
+       methods=dict(HE_METHODS, begin='BLK_begin', end='BLK_end', initialize_next_block='BLK_initialize_next_block'),
+       subst=[(r'\bblock\b', '(*block_p)', 'block_ref')],
+       must_fire={'method:set_link': 2, 'method:begin': 1, 'method:end': 1, 'method:initialize_next_block': 1}),
   # ---- thread_data (impl 448-464, 500-506) ----
   dict(id='td_ensure_has_control_block', file=IMPL, sig=r'void ensure_has_control_block\(\)', c_sig='static void td_ensure_has_control_block(struct thread_data* self)',
        members=['control_block', 'hint'],
@@ -126,25 +159,75 @@ SOURCES = [
 ]
 
 KS_QUICK = [1, 2, 3, 5]
+GROUPS = [('slots_alloc', 'h_slots', 0, 0, {}), ('slots_rel_init', 'h_slots', 1, 2, {}), ('slots_k_allocs', 'h_slots', 3, 4, {}),
+          ('g_ctor', 'h_guards', 0, 2, {}), ('g_assign', 'h_guards', 3, 4, {}), ('g_reset_swap_reclaim', 'h_guards', 5, 7, {}),
+          ('g_acquire', 'h_guards', 8, 8, dict(unwindset=['g_acquire_seq.0:3'], note='no interference: the retry loop runs at most twice (third iteration excluded by the unwinding assertion)')),
+          ('g_acquire_if_equal', 'h_guards', 9, 9, {}),
+          ('int_acquire', 'h_int', 0, 0, dict(mode='INT', note='retry loop of acquire cut by invariant ACQ; source cell and era clock rewritten by the environment before each load of them')),
+          ('int_acquire_if_equal', 'h_int', 1, 1, dict(mode='INT')),
+          ('dyn_alloc', 'h_dyn', 0, 0, dict(dyn=True, note='dynamic strategy, 0..2 blocks of K slots exist, a further block can be allocated')),
+          ('dyn_initialize', 'h_dyn', 1, 1, dict(dyn=True))]
 RUNS = []
 for k in KS_QUICK + [8]:
-    tiers = ['quick', 'thorough'] if k in KS_QUICK else ['thorough']
-    RUNS.append(dict(id='slots_K%d' % k, entry='h_slots', tiers=tiers, cls='shape-complete', defs={'XV_K': k}, unwind=k + 2,
-                     note='K=%d slots, all loops over the K slots unwound completely; every value symbolic' % k))
-    RUNS.append(dict(id='guards_K%d' % k, entry='h_guards', tiers=tiers, cls='shape-complete', defs={'XV_K': k}, unwind=k + 2))
-    RUNS.append(dict(id='int_K%d' % k, entry='h_int', mode='INT', tiers=tiers, cls='shape-complete', defs={'XV_K': k}, unwind=k + 2,
-                     note='retry loop of acquire cut by invariant ACQ; source cell and era_clock rewritten by the environment before every atomic access'))
+    for name, entry, lo, hi, extra in GROUPS:
+        extra = dict(extra); dyn = extra.pop('dyn', False)
+        tiers = ['quick', 'thorough'] if (k in KS_QUICK and not (dyn and k == 5)) else ['thorough']
+        nslot = (3 * k + max(k, (3 * k) // 2)) if dyn else k
+        defs = {'XV_K': k, 'XV_OPS_LO': lo, 'XV_OPS_HI': hi}
+        if dyn: defs['XV_DYN'] = 1
+        RUNS.append(dict(dict(id='%s_K%d' % (name, k), entry=entry, tiers=tiers, cls='shape-complete', defs=defs, unwind=nslot + 2), **extra))
 
+OBL = {
+  'he.slot.roundtrip': 'hazard_era: set_era/get_era/try_get_era, set_link/get_link/is_link and guards/add_guard/release_guard return what was stored, eras and links are never confused',
+  'he.alloc.k_available': 'alloc_hazard_era throws only when the free chain is empty and the request cannot share the last slot; from "all free" K requests in K different eras get K different slots',
+  'he.alloc.exhausted_throws': 'static strategy: a request that cannot be served raises bad_hazard_era_alloc and changes nothing (slots, chain, last_hazard_era/last_era, counters)',
+  'he.alloc.era_matches': 'the slot returned by alloc_hazard_era(era) publishes exactly era when the call returns (shared fast path and fresh-slot path)',
+  'he.alloc.frame': 'alloc_hazard_era changes only the returned slot, whose guard count grows by exactly one',
+  'he.alloc.shares_same_era': 'a request for the era of the last allocation returns that slot and leaves chain and cache alone',
+  'he.alloc.takes_chain_head': 'otherwise the head of the free chain is returned with count 1, the chain advances, the cache names the new slot and era',
+  'he.initialize.all_free': 'initialize on an arbitrary left-over record puts every slot of the record (and of every dynamic block) on the free chain exactly once and accounts them in number_of_active_hes',
+  'he.release.returns_slot': 'releasing decrements the slot count; the slot goes back to the head of the free chain (link tag, cache invalidated) exactly when the count drops to 0; nothing else changes',
+  'he.count.exact': 'on every exit of every operation guards(s) == number of live guard_ptrs whose he == s, for every slot s',
+  'he.guard_ops.preserve_inv': 'every exit of every operation re-establishes Inv_K (free chain duplicate-free/in-block/null-terminated, free <=> count 0 <=> link tag, held slots publish an era <= era_clock, last-era cache coherent)',
+  'he.guard_ops.others_intact': 'a slot some other guard relies on keeps publishing the same era',
+  'he.guard_ops.operand_frame': 'operations do not change guards they are not applied to, nor the source pointer',
+  'he.guard_ops.holds_slot_iff_protecting': 'a guard whose get() is non-null holds a hazard era',
+  'he.guard_ops.empty_holds_no_slot': 'a guard that holds nothing (null, mark 0) occupies no hazard era',
+  'he.sync.publish_then_fence': 'every store into a slot is a release store and every published era is followed by a seq_cst fence before the operation returns',
+  'he.ctor.protects': 'guard_ptr(marked_ptr): null => empty guard, no slot; otherwise the guard holds a slot publishing the current era',
+  'he.copy.shares': 'copy construction/assignment: both guards equal the source, the shared slot count grows by one (same slot, same era), the old slot of the target is released',
+  'he.move.empties_source': 'move construction/assignment: target = old source, source empty, no count changes except the release of the old target slot',
+  'he.self_assign.noop': 'self copy/move assignment changes nothing',
+  'he.reset.releases': 'reset/destructor: guard empty, its slot released, other guards untouched',
+  'he.reset.idempotent': 'a second reset changes nothing',
+  'he.swap.exchanges': 'swap exchanges pointer and slot of the two guards, slots untouched',
+  'he.reclaim.retires_then_empty': 'reclaim: guard empty and slot released, retirement_era = era_clock before its increment by one, node pushed once onto the retire list with its deleter, scan iff threshold reached',
+  'he.acquire.snapshot': 'acquire: the guard holds the value returned by the last load of the source performed during the call',
+  'he.acquire.era_stable': 'when the result is non-null the slot publishes an era_clock value loaded after the pointer load that produced the result',
+  'he.acquire.sync': 'the pointer load that produced the result is at least acquire and no published era is unfenced at that load',
+  'he.acquire.exc_safe': 'when acquire raises bad_hazard_era_alloc the guard names neither an unprotected object nor a slot it does not count in; the chain was empty',
+  'he.acquire.null_holds_no_slot': 'acquire of a null pointer leaves the guard without a hazard era',
+  'he.acquire_if_equal.iff': 'acquire_if_equal returns true exactly when the last value loaded equals expected (then the guard holds it); otherwise the guard is empty',
+  'he.acquire_if_equal.exc_safe': 'when acquire_if_equal raises bad_hazard_era_alloc the guard names neither an unprotected object nor a slot it does not count in (F9)',
+  'he.dyn.never_throws': 'dynamic strategy: alloc_hazard_era never throws',
+  'he.dyn.new_block': 'a new block of max(K, total/2) slots is allocated exactly when the chain is empty and nothing can be shared: accounted in total_number_of_hes and number_of_active_hes, linked in front of the block list, its slots form the new chain, old slots untouched',
+}
 UNIT = dict(
   title='hazard_eras: guard_ptr operations and hazard-era slots (C18, C15 guard part, C01 protect side)',
   properties=['C18', 'C15', 'C01'],
   drops='templates (T, MarkedPtr: an opaque word whose pointer part is selected by an arbitrary mask; Strategy::K = shape XV_K); '
         'marked_ptr<void*,1> of a slot is a record {word, link pointer, mark} (reading the wrong alternative yields an arbitrary value); '
-        'thread_local thread_data is one global record; exceptions are a flag',
+        'thread_local thread_data is one global record; exceptions are a flag; a throwing call does not perform the assignment of its result; '
+        'dynamic strategy: operator new/placement new hand out one pre-declared storage area, the default member initialiser next = nullptr is applied by the stub',
   assumptions=['stub thread_block_list::acquire_inactive_entry: returns a record whose slots all have guard_cnt == 0 and last_hazard_era == 0 (left-over or fresh), activate(): no effect on slots',
-               'stub scan(): does not touch the hazard-era slots of the calling thread (reclaim side is unit he_scan)',
-               'era_clock < 2^62 (one increment per reclaim)'],
+               'stub scan(): does not touch the hazard-era slots of the calling thread (reclaim side is another unit)',
+               'era_clock < 2^62, fewer than 2^62 guard objects / retired nodes / atomic events per call',
+               'eras passed to alloc_hazard_era were read from the era clock after every era the thread published before (guard level: derived, not assumed)',
+               'marked_ptr contract (unit mp) for the slot word and the guarded pointer',
+               'dynamic strategy shape: at most two blocks (K and K slots) exist before the call'],
   sources=SOURCES, runs=RUNS,
-  obligations={},
+  obligations={k: dict(deciding=True, text=v) for k, v in OBL.items()},
+  loop_obligation={'ACQ': 'he.acquire.era_stable'},
+  replays={},
   canaries=[],
 )
